@@ -181,6 +181,18 @@ CHECKS['C16'] = dict(
          "presence, not for correctness.",
     tech="static analysis: obligation matrix over AST-visitor methods (guarded-throw presence by CFG reachability from predicate tests), finite abstract evaluation of the type-compatibility helpers (K-ABS)")
 
+CHECKS['C07'] = dict(
+    text="Control skeleton of the classical evaluator only: handler exhaustiveness (every concrete Statement/Expression class of the AST "
+         "has a dynamic_cast branch in exec / eval / the parser's expression cloner); return unwinding (every statement-executing loop "
+         "tests the return flag after each statement; call, callMethod, runConstructorChain and destroyObject save, clear and restore "
+         "the flag on all normal paths); every computed subscript of a value array is dominated by the `i<0 || i>=size` test on the same "
+         "container (or is a loop induction variable bounded by that container's size) and language-level `/`/`%` by their zero tests; "
+         "`/` yields a Float-tagged value on every path. All CFG paths of those functions.",
+    note=TB + "NOT decided: the values and result types of the operator cascade, numeric formatting, casts, short-circuit order and "
+         "for-loop update ordering — that is a differential property against a reference interpreter over runtime values, out of reach "
+         "of a static rule. The clauses above are necessary conditions (breaking one changes behaviour), not the whole property.",
+    tech="static analysis: class-hierarchy exhaustiveness of dynamic_cast dispatch, CFG dominance of guards over subscripts/divisions, save/clear/restore typestate of the return flag")
+
 NOT_YET = "check not yet built in this round (framework under construction; see DESIGN.md §4 for the planned static rules)"
 
 
